@@ -16,7 +16,7 @@ RULE = ('every grammar sentence (clause or directive) with <= N tokens over one 
         'Python constants / engine names / loop-variable look-alikes x 4 clause shapes; 24 predicate names (Python '
         'keywords, suffix look-alikes, quoted names with spaces, operators, digits, non-ASCII, empty) as clause head; '
         'bodies that cannot succeed; 26 words of the target language (yield, return, pass, doBreak, ...) as atoms, functor names and goal names in succeeding and never-succeeding clauses; conjunction length 1..30, a grid of mixed sizes (0..20 goals x if-then-else nested 0..12 deep x 0/4/9 structured head arguments; 1..25 negated goals; 1..9 if-then-else goals in sequence), head arity 0..40, term nesting 1..120, list length '
-        '0..300, disjunction / if-then-else / negation nesting 1..12. If the compiler returns text: it must compile as '
+        '0..300, disjunction / if-then-else / negation nesting 1..12. Every family program is compiled alone and between two ordinary predicates. If the compiler returns text: it must compile as '
         'Python, its module body must be function definitions only, loading it must add exactly the keys name_arity '
         'of the clause heads (RefGrammar), each a generator function, each callable through query without a '
         'NameError/TypeError/UnboundLocalError. A CompilerError is accepted instead of code. states = distinct '
@@ -179,7 +179,19 @@ def check_text(text, tag=None):
     return ('ok', None, None, ('loaded', tuple(want)))
 
 
+def with_neighbours(text):
+    """the program between two ordinary predicates: whatever its clauses compile to, the
+    predicates before and after it must be defined as usual"""
+    return 'zzbefore(ok).\n' + text + ('\n' if not text.endswith('\n') else '') + 'zzafter(X) :- zzbefore(X).\n'
+
+
 def process(acc, index, tag, text):
+    if tag != 'sentence' and tag != 'term-nesting' and tag != 'list-length':
+        _process(acc, index, tag, with_neighbours(text))
+    _process(acc, index, tag, text)
+
+
+def _process(acc, index, tag, text):
     acc.n['evaluations'] += 1
     acc.n['validated'] += 1
     acc.n['transitions'] += 1
